@@ -394,7 +394,10 @@ def run(chk, repo):
                    + ": PVGTraversal.stage visits a node only after ALL its in-edges were staged, so the node behind the edge (and everything only "
                    "reachable through it) is never visited - e.g. an in-graph '*' node of a stop-gain bubble starves the join node and all downstream peptides",
                    key=f"{fn.qual}::stage-all::{li}", fn=fn.qual)
-
+    # ------------------------------------------------------------------ shared: option plumbing by name
+    from rules.shared import optname
+    chk.clauses.append('C05.j (shared R-THREAD) an option value bound to a name that is itself a CLI option carries that very option')
+    optname(chk, repo, 'C05.j', ['cli.call_variant_peptide'], floor=0)
 
 def flag_polarity(e, flag):
     """truth polarity of e when the boolean flag goes False->True."""
